@@ -134,7 +134,7 @@ fn races(rep: &Report, opts: &Opts) {
         let results: Vec<_> = jobs
             .par_iter()
             .map(|(i, racers)| {
-                let sc = Race { world: starts[*i].0.clone(), racers: racers.clone(), urg: Urg::High, snapshots_only: true };
+                let sc = Race { world: starts[*i].0.clone(), racers: racers.clone(), urg: Urg::High, snapshots_only: true, must_be_absent: vec![], must_be_present: vec![], expect_tasks: None };
                 let cfg = ExploreCfg { bound: if racers.len() >= 3 { 2 } else { usize::MAX }, max_schedules: 1_000_000, deadline: Some(deadline), seen: Some(Default::default()) };
                 let (st, fails) = explore(&sc, &cfg);
                 (*i, racers.clone(), st, fails)
